@@ -6,7 +6,7 @@ import ast
 import z3
 
 from . import smt
-from .contract import (Arr, Arr2, Bool, Const, Contract, Int, Obj, Opaque, Opt, Real, RecArr, Str)
+from .contract import (Arr, Arr2, Bool, Const, Contract, Int, Obj, Opaque, Opt, Raw, Real, RecArr, Str)
 from .source import ContractMismatch, OutOfSubset, _strip_doc
 from .state import NORMAL, Outcome, State
 from .values import *  # noqa: F403
@@ -126,7 +126,27 @@ class CallMixin:
             return VBV(z3.BitVecVal(c, 8))
         if name == "arr":
             v = self.ev(node.args[0], st)
+            if isinstance(v, VOpaqueArr):
+                return v
             return VOpaqueArr(st.heap[v.obj])
+        if name is not None and name.startswith("lemma_"):
+            lc = self.reg.get("verif:specs/clients.py::" + name)
+            if lc is None:
+                raise OutOfSubset(f"unknown lemma {name}")
+            # a lemma proved (by induction) for all arguments: its instance is a valid fact
+            fi_l = self.src.func(lc.key)
+            pn = [a.arg for a in fi_l.node.args.args]
+            vals = [self.ev(a, st) for a in node.args]
+            saved = st.env
+            st.env = dict(zip(pn, vals))
+            try:
+                req = [self.spec_bool(r, st) for r in lc.requires]
+                ens = [self.spec_bool(e, st) for (_l, e, _c) in lc.ensures]
+            finally:
+                st.env = saved
+            st.assume(z3.Implies(z3.And(req) if req else z3.BoolVal(True), z3.And(ens)))
+            self.assume_tag("LEMMA:" + name)
+            return VBool(True)
         if name == "off":
             v = self.ev(node.args[0], st)
             return VInt(v.off)
@@ -146,6 +166,20 @@ class CallMixin:
                 return VBool(z3.ForAll([j], z3.Implies(z3.And(0 <= j, j < v.n), z3.Select(st.heap[v.obj], idx)
                                                        == z3.Select(self.old.heap[v.obj], idx))))
             raise OutOfSubset("unchanged(array)")
+        if name in ("boff", "bn") and getattr(self, "gen_specs", None):
+            return VInt(self.gen_specs[name](smt.som(self.to_int(self.ev(node.args[0], st)))))
+        if name == "bK" and getattr(self, "gen_specs", None):
+            return VInt(self.gen_specs["bK"])
+        if name == "XS":
+            from .iomodel import XS_OBJ, xs_object
+            xs_object(self, st)
+            if node.args:
+                return VReal(z3.Select(st.heap[XS_OBJ], smt.som(self.to_int(self.ev(node.args[0], st)))))
+            return VOpaqueArr(st.heap[XS_OBJ])
+        if name == "contents_are":
+            v = self.ev(node.args[0], st)
+            raw = self.ev(node.args[1], st)
+            return VBool(z3.And(st.heap[v.obj] == raw.t, v.off == 0))
         if name == "is_real_array":
             v = self.ev(node.args[0], st)
             return VBool(st.hmeta[v.obj]["kind"] == "real")
@@ -472,6 +506,9 @@ class CallMixin:
 
     def call_repo(self, key, self_v, args, kwargs, st, line):
         fi = self.src.func(key)
+        if ("repo:" + key) in self.models:
+            self.assume_tag("MODEL:" + key.split("::")[1])
+            return self.models["repo:" + key](self, st, [self_v] + list(args), kwargs, line)
         c = self.reg.get(key)
         if c is None and fi.alias_of:
             c = self.reg.get(f"{fi.file}::{fi.alias_of}")
@@ -525,6 +562,20 @@ class CallMixin:
             self.trusted_used[c.key] = c.trusted_reason
         saved_env = st.env
         cenv = dict(env)
+        # name compound integer arguments: the callee's clauses then mention an atom, and the defining equation
+        # links it to whatever the caller knows about the expression
+        for pn, pv in list(cenv.items()):
+            if isinstance(pv, VInt) and not (z3.is_const(pv.t) or z3.is_int_value(pv.t)) and _has_mul(pv.t):
+                a_ = smt.fresh(f"arg_{pn}")
+                st.assume(a_ == pv.t)
+                cenv[pn] = VInt(a_)
+        # ghost parameters of the callee are supplied by the caller's contract (evaluated in the caller's scope)
+        if c.ghost_params:
+            sup = (self.contract.ghost_args.get(short, {}) if self.contract is not None else {})
+            for gname in c.ghost_params:
+                if gname not in sup:
+                    raise OutOfSubset(f"line {line}: ghost argument {gname} of {short} not supplied by {self.cur_func}")
+                cenv[gname] = self.spec_val(sup[gname], st)
         st.env = cenv
         saved_old, saved_res = self.old, self.result
         saved_mod = self.mod
@@ -655,6 +706,8 @@ class CallMixin:
                 off = smt.fresh(name + "_off")
                 st.assume(off >= 0)
             return VArr(obj, off, z3.IntVal(1), n)
+        if isinstance(t, Raw):
+            return VOpaqueArr(z3.Const(name + "@raw", z3.ArraySort(INT, ELEM_SORT[t.kind])))
         if isinstance(t, Arr2):
             obj = self.new_obj(st, t.kind, t.dtype, name)
             n0, n1 = smt.fresh(name + "_n0"), smt.fresh(name + "_n1")
@@ -698,11 +751,43 @@ class CallMixin:
         m = self.models.get("class:" + ref)
         if m is not None:
             return m(self, st, args, kwargs, line)
-        c = self.reg.get(ref + ".__init__")
+        relfile, cname = ref.split("::")
+        init = self.src.find_method(relfile, cname, "__init__")
+        if init is not None and ref in getattr(self, "inline_classes", set()):
+            obj = VObj(self.new_oid(st, {}), cname, relfile)
+            env = self.bind_params(init, obj, args, kwargs, st, line)
+            out = []
+            for s2, oc in self.call_inline(init, env, st, line):
+                out.append((s2, Outcome("value", obj) if oc.kind == "value" else oc))
+            return out
         raise OutOfSubset(f"line {line}: constructor {ref}")
 
     def call_generator(self, fi, c, env, st, line):
-        raise OutOfSubset(f"line {line}: generator call")
+        """A generator under a yield contract: the call only checks the preconditions and captures the
+        argument environment; the blocks are described at the consuming `for` (stmt.for_generator)."""
+        if not getattr(c, "gen_spec", None):
+            raise OutOfSubset(f"line {line}: generator {c.key} has no consumer-side yield contract")
+        saved_env, saved_mod = st.env, self.mod
+        cenv = dict(env)
+        st.env = cenv
+        self.mod = self.src.module(fi.file)
+        n = self.call_counter.get(c.key, 0)
+        self.call_counter[c.key] = n + 1
+        short = c.key.split("::")[1]
+        try:
+            for name, expr in c.lets.items():
+                try:
+                    cenv[name] = self.spec_val(expr, st)
+                except OutOfSubset:
+                    pass  # abbreviation over producer-side state the consumer does not model
+            for i, r in enumerate(c.gen_requires):
+                g = self.spec_bool(r, st)
+                self.oblig(st, f"pre@{short}#{n}", g, line, label=f"r{i}")
+                st.assume(g)
+            spec = {k: self.spec_val(e, st) for k, e in c.gen_spec.items()}
+        finally:
+            st.env, self.mod = saved_env, saved_mod
+        return [(st, Outcome("value", VFunc("genobj", (c, spec, env.get("self")))))]
 
     def call_modifies(self, n: ast.Call, st, objs, fields):
         """Heap objects a call inside a loop body may modify (from the callee's contract/model)."""
@@ -804,6 +889,12 @@ class VOpaqueBuf(V):
 
     def __init__(self, obj, n, off=None):
         self.obj, self.n, self.off = obj, n, off if off is not None else z3.IntVal(0)
+
+
+def _has_mul(t):
+    if z3.is_mul(t) and sum(1 for c in t.children() if not z3.is_int_value(c)) >= 2:
+        return True
+    return any(_has_mul(c) for c in t.children())
 
 
 def _is_static(node):
